@@ -70,6 +70,12 @@ Definition run_sign_k (kb : bytes) (c : bool) (nb : bytes) (nc : bool) (msg : by
   | _, _ => out3 "ERR" "ERR" "-"
   end.
 
+Definition rec_own (M : ec_prims) (sg : signature) (dg : bytes) (pk : pubkey) : string :=
+  match get_public_key_from_digest M sg dg with
+  | Ok q => if bytes_eqb (pk_point q) (pk_point pk) then "1" else "0"
+  | Err => "E" | Panic => "P"
+  end.
+
 Definition run_compact_verify (kb : bytes) (c : bool) (msg : bytes) (prefix : byte) : string :=
   match key_of kb c with
   | Ok sk =>
@@ -93,12 +99,15 @@ Definition run_compact_verify (kb : bytes) (c : bool) (msg : bytes) (prefix : by
                                     end)
                 (* BSM::is_valid_message, P2PKHAddress::is_valid_bitcoin_message = verify_message_impl(..).is_ok() *)
                 +++ ";" +++ is_ok v1 +++ ";" +++ is_ok v1
+                (* Signature::recover_public_key_from_digest(digest computed by the driver) = the signer's key, in its form *)
+                +++ ";" +++ rec_own M sg (bsm_digest msg) pk
+                +++ ";" +++ match from_compact_impl cb with Ok sg' => rec_own M sg' (bsm_digest msg) pk | _ => "E" end
             | Err => "ERR" | Panic => "PANIC"
             end
         | Err => "ERR" | Panic => "PANIC"
         end in
       out3 impl (match bsm_sign_spec (sk_d sk) c msg with
-                 | Some b => "OK:" +++ hex_of_bytes b +++ ";1;1;1;1;1" | None => "-" end) "-"
+                 | Some b => "OK:" +++ hex_of_bytes b +++ ";1;1;1;1;1;1;1" | None => "-" end) "-"
   | _ => out3 "ERR" "ERR" "-"
   end.
 
@@ -135,12 +144,17 @@ Definition run_tamper (kb : bytes) (c : bool) (msg : bytes) (p : byte) (kind : s
             | "k" => show_t (do a' <- own_address fast_prims {| sk_d := Z.of_N i; sk_compressed := c |} p;
                                   verify_with_digest fast_prims dg sg a')
             | "p" => show_t (do a' <- Keys.addr_set_chain a (n2b i); verify_with_digest fast_prims dg sg a')
+            | "q" => show_t (do a1 <- Keys.addr_set_chain a (n2b i); do a2 <- Keys.addr_set_chain a1 x00;
+                             do a3 <- Keys.addr_set_chain a2 p; verify_with_digest fast_prims dg sg a3)
+            | "o" => let sk2 := compress_public_key sk (negb c) in
+                     show_t (do sg2 <- sign_with_digest fast_prims sk2 dg; do a' <- own_address fast_prims sk2 p;
+                             verify_with_digest fast_prims dg sg2 a')
             | _ => "BADARG"
             end
         | Panic, _ => "PANIC" | _, Panic => "PANIC"
         | _, _ => "ERR"
         end in
-      out3 impl (match kind with "p" => "OK:1;1;1" | _ => "OK:E;0;0" end) "-"
+      out3 impl (match kind with "p" => "OK:1;1;1" | "q" => "OK:1;1;1" | "o" => "OK:1;1;1" | _ => "OK:E;0;0" end) "-"
   | _ => out3 "ERR" "ERR" "-"
   end.
 
